@@ -32,7 +32,7 @@ BUDGET = {'quick': dict(examples=2000, shards=16, seconds=75),
 
 @st.composite
 def cases_(draw):
-    opts = draw(gen_dump.dump_options())
+    opts = draw(gen_dump.dump_options(counters=True))
     # JSON + non-alphabetical schema order cannot be loaded back (known finding): keep most JSON cases
     # alphabetical so that the rest of the round trip is still explored for that format
     alpha = opts['format'] == 'json' and draw(st.integers(0, 3)) != 0
@@ -41,7 +41,13 @@ def cases_(draw):
     if mixed:
         # force_format=False: every resource is written in the format its own path names
         gen_dump.per_resource_formats(draw, pkg, opts)
-    return {'pkg': pkg, 'opts': opts}
+    c = {'pkg': pkg, 'opts': opts}
+    if gen.rare(draw, 25) and pkg[0]['rows']:
+        # a resource longer than the writers' batches (1001-1100 rows, repeating the drawn rows)
+        c['repeat_to'] = draw(st.integers(1001, 1100))
+    # a later step of the same flow edits the rows in place: the dump holds them as they were at the dumper's position
+    c['follow'] = draw(st.integers(0, 3)) == 0
+    return c
 
 
 def cases(tier):
@@ -85,8 +91,24 @@ def hard_cell(v):
     return False
 
 
+def inplace_edit(row):
+    """User row step placed after the dumper: edits top-level and nested values in place (returns None)."""
+    for k, v in list(row.items()):
+        if isinstance(v, list):
+            v.append('!')
+        elif isinstance(v, dict):
+            v['!'] = 1
+        elif isinstance(v, str):
+            row[k] = v + '!'
+        elif isinstance(v, int) and not isinstance(v, bool):
+            row[k] = v + 1
+
+
 def check(case, ctx):
     pkg, opts = case['pkg'], case['opts']
+    if case.get('repeat_to') and pkg[0]['rows'] and not pkg[0].get('pk'):
+        base = pkg[0]['rows']
+        pkg = [dict(pkg[0], rows=[copy.deepcopy(base[i % len(base)]) for i in range(case['repeat_to'])])] + list(pkg[1:])
     desc = gen.descriptor_of(pkg)
     tables = gen.tables_of(pkg)
     out_dir = ctx.tmpdir()
@@ -96,8 +118,12 @@ def check(case, ctx):
     for k in ('add_filehash_to_path', 'tfp'):
         if opts[k]:
             classes.append('opt:' + k)
+    if case.get('repeat_to'):
+        classes.append('more-than-1000-rows')
+    if case.get('follow'):
+        classes.append('followed-by-in-place-edit')
     try:
-        run_steps([step], desc, tables)
+        run_steps([step] + ([inplace_edit] if case.get('follow') else []), desc, tables)
     except Exception as e:
         raise unexpected(e, 'dump')
     expected = []
